@@ -117,6 +117,11 @@ async def _run(loop, case, ctx_info, tmp):
         else:
             ckw[f"{direction}_speed_limit"] = limit
     users = [aioftp.User(base_path=tmp)] if backend != "mem" else [aioftp.User()]
+    # behaviour-neutral server options (pool, limits far above the traffic, long timeouts) vary with the case
+    neutral = [{}, {}, {"data_ports": [5001, 5002, 5003, 5004]}, {"maximum_connections": 3}, {"socket_timeout": 900, "idle_timeout": 900},
+               {"path_timeout": 900}, {"ipv4_pasv_forced_response_address": "127.0.0.1"}][(len(tape) + block) % 7]
+    for k_, v_ in neutral.items():
+        skw.setdefault(k_, v_)
     server = aioftp.Server(users, path_io_factory=harness.BACKENDS[backend], block_size=block, **skw)
     await server.start(HOST, PORT)
     client = aioftp.Client(passive_commands=(passive,), path_io_factory=aioftp.MemoryPathIO, **ckw)
